@@ -25,6 +25,7 @@ def dispatch (line : String) : String :=
       | "C12" => Swim.Drv.Codec.handleC12 kind fs
       | "C13" => Swim.Drv.Ingest.handleC13 kind fs
       | "C14" => Swim.Drv.Ingest.handleC14 kind fs
+      | "C15" => Swim.Drv.Ingest.handleC15 kind fs
       | "C16" => Swim.Drv.Codec.handleC16 kind fs
       | "C01" | "C02" | "C07" | "C08" | "C18" => Swim.Drv.Merge.handle prop kind fs
       | "C06" => if kind == "susp" then Swim.Drv.C06.handleSusp fs else Swim.Drv.Merge.handle prop kind fs
